@@ -2535,12 +2535,17 @@ package decimal128
 // MarshalJSON (C13, thin): NaN and infinities are refused with *json.UnsupportedValueError, finite
 // values never fail. The bytes produced by fmtE / fmtF are outside the contracts.
 //@ func Decimal.MarshalJSON
+//@ uses rssteps=1,2,3,4,5,6,7,8,9,10,11,12,13,14,15,16,17,18,19,20,21,22,23,24,25,26,27,28,29,30,31,32,33,34,35,36,37,38,39 rsmono=0,1,2,3,4,5,6,7,8,9,10,11,12,13,14,15,16,17,18,19,20,21,22,23,24,25,26,27,28,29,30,31,32,33,34,35,36,37,38,39 timeout=30
 //@ returns (out, err)
 //@ logical V real
 //@ requires !special(d) ==> V >= 0 && rs(V, bexp(d)) == coef(d)
 //@ call Decimal.digits#1: V = V
 //@ ensures special(d) ==> tag(err) == typetag("*encoding/json.UnsupportedValueError")
 //@ ensures !special(d) ==> tag(err) == 0
+//@ assert before "return digs.fmtE(nil, prec, 0, false, false, false, false, false, false, 'e'), nil": coef(d) != 0 && (rs(V, 6170) < 1 || rs(V, 6196) >= 1)
+//@ assert before "prec = 0": digs.ndig >= 1 ==> real(p10(digs.ndig - 1)) <= rs(V, digs.exp + 6176) && rs(V, digs.exp + 6176) < real(p10(digs.ndig))
+//@ assert before "return digs.fmtF(nil, prec, 0, false, false, false, false, false), nil": coef(d) == 0 || rs(V, 6170) >= 1
+//@ assert before "return digs.fmtF(nil, prec, 0, false, false, false, false, false), nil": coef(d) == 0 || rs(V, 6196) < 1
 //@ callarg digits.fmtE#1: arg_prec == ite(digs.ndig != 0, digs.ndig - 1, 0) && arg_width == 0 && !arg_forceDP && !arg_printSign && !arg_padSign && !arg_padExp && !arg_padRight && !arg_padZero && arg_e == 101
 //@ callarg digits.fmtF#1: arg_prec == ite(digs.exp < 0, 0 - digs.exp, 0) && arg_width == 0 && !arg_forceDP && !arg_printSign && !arg_padSign && !arg_padRight && !arg_padZero
 //@ props C13 C20
@@ -2550,7 +2555,7 @@ package decimal128
 // outside this contract.
 //@ func Decimal.String
 //@ returns (s)
-//@ uses rssteps=1,2,3,4,5,6,7,8,9,10,11,12,13,14,15,16,17,18,19,20,21,22,23,24,25,26,27,28,29,30,31,32,33,34,35,36,37,38,39 rsmono=0,1,2,3,4,5,6,7,8,9,10,11,12,13,14,15,16,17,18,19,20,21,22,23,24,25,26,27,28,29,30,31,32,33,34,35,36,37,38,39
+//@ uses rssteps=1,2,3,4,5,6,7,8,9,10,11,12,13,14,15,16,17,18,19,20,21,22,23,24,25,26,27,28,29,30,31,32,33,34,35,36,37,38,39 rsmono=0,1,2,3,4,5,6,7,8,9,10,11,12,13,14,15,16,17,18,19,20,21,22,23,24,25,26,27,28,29,30,31,32,33,34,35,36,37,38,39 timeout=30
 //@ logical V real
 //@ requires !special(d) ==> V >= 0 && rs(V, bexp(d)) == coef(d)
 //@ call Decimal.digits#1: V = V
@@ -2565,7 +2570,7 @@ package decimal128
 //@ props C06 C20
 
 //@ func Decimal.MarshalText
-//@ uses rssteps=1,2,3,4,5,6,7,8,9,10,11,12,13,14,15,16,17,18,19,20,21,22,23,24,25,26,27,28,29,30,31,32,33,34,35,36,37,38,39 rsmono=0,1,2,3,4,5,6,7,8,9,10,11,12,13,14,15,16,17,18,19,20,21,22,23,24,25,26,27,28,29,30,31,32,33,34,35,36,37,38,39
+//@ uses rssteps=1,2,3,4,5,6,7,8,9,10,11,12,13,14,15,16,17,18,19,20,21,22,23,24,25,26,27,28,29,30,31,32,33,34,35,36,37,38,39 rsmono=0,1,2,3,4,5,6,7,8,9,10,11,12,13,14,15,16,17,18,19,20,21,22,23,24,25,26,27,28,29,30,31,32,33,34,35,36,37,38,39 timeout=30
 //@ returns (out, err)
 //@ logical V real
 //@ requires !special(d) ==> V >= 0 && rs(V, bexp(d)) == coef(d)
@@ -2606,7 +2611,7 @@ package decimal128
 //@ props C07 C20
 
 //@ func Decimal.format
-//@ uses rssteps=1,2,3,4,5,6,7,8,9,10,11,12,13,14,15,16,17,18,19,20,21,22,23,24,25,26,27,28,29,30,31,32,33,34,35,36,37,38,39 rsmono=0,1,2,3,4,5,6,7,8,9,10,11,12,13,14,15,16,17,18,19,20,21,22,23,24,25,26,27,28,29,30,31,32,33,34,35,36,37,38,39
+//@ uses rssteps=1,2,3,4,5,6,7,8,9,10,11,12,13,14,15,16,17,18,19,20,21,22,23,24,25,26,27,28,29,30,31,32,33,34,35,36,37,38,39 rsmono=0,1,2,3,4,5,6,7,8,9,10,11,12,13,14,15,16,17,18,19,20,21,22,23,24,25,26,27,28,29,30,31,32,33,34,35,36,37,38,39 timeout=30
 //@ returns (out)
 //@ logical V real
 //@ requires !special(d) ==> V >= 0 && rs(V, bexp(d)) == coef(d)
